@@ -31,7 +31,7 @@ SoloOf(ev, r, oi) ==
 Nops(n) == [k \in 1..n |-> 144]
 \* expected bytes of the contexts first/mid/last in plain or counting mode (fitting inserts padding: judged by C13)
 CtxWhy(ev, r, oi) ==
-  IF r.ctx \in {"solo0", "solo37"} \/ r.mode = "fit" THEN ""
+  IF r.ctx \in {"solo0", "solo37", "edge"} \/ r.mode = "fit" THEN ""
   ELSE LET s == SoloOf(ev, r, oi) IN
        IF s.ret # 0 THEN ""
        ELSE LET pre == Nops(r.pre)
@@ -42,7 +42,7 @@ CtxWhy(ev, r, oi) ==
 SupportedWhy(ev, r, oi) ==
   IF r.ret # 0 THEN "rejected"
   ELSE IF r.off1 - r.off0 # Len(r.bytes) \/ r.lo # r.off0 \/ r.hi # r.off1 - 1 THEN "C01:offset-advance"
-  ELSE IF r.ctx \notin {"solo0", "solo37"} THEN CtxWhy(ev, r, oi)
+  ELSE IF r.ctx \notin {"solo0", "solo37", "edge"} THEN CtxWhy(ev, r, oi)
   ELSE IF r.mode = "fit" /\ (ev.ast.mn \in NopK \/ ev.ast.mn = "nop") THEN ""   \* padding and instruction are both NOPs: judged by C13
   ELSE LET \* chunk fitting may put NOP padding in front (its layout is C13's business) and assembles the instruction a second time: judge that code
            ds   == IF r.mode = "fit" /\ Len(r.bytes) > 0 THEN DecodeAll(r.bytes) ELSE <<>>
